@@ -65,6 +65,16 @@ pub fn build_input(family: &str, d: usize) -> Vec<u8> {
                 v.extend_from_slice(&[2, 0xFF, 0xFF]);
             }
         }
+        "marker-then-ffffffff" => {
+            // d = marker byte: any type whose length/count field the decoder might trust
+            v.extend_from_slice(&[d as u8, 0xFF, 0xFF, 0xFF, 0xFF, b'a', b'b', b'c']);
+        }
+        "marker-then-10000000" => {
+            v.extend_from_slice(&[d as u8, 0x10, 0x00, 0x00, 0x00, b'a', b'b', b'c']);
+        }
+        "marker-then-ffff" => {
+            v.extend_from_slice(&[d as u8, 0xFF, 0xFF, b'a']);
+        }
         "many-nulls" => {
             v.resize(d, 5);
         }
@@ -174,6 +184,12 @@ pub fn run(run: &Run) {
             }
         }
     }
+    // every marker byte followed by a maximal length / count field
+    for m in 0..=255usize {
+        for fam in ["marker-then-ffffffff", "marker-then-10000000", "marker-then-ffff"] {
+            cases.push((fam.to_string(), m, 2048));
+        }
+    }
     if thorough {
         cases.push(("many-nulls".into(), 16_777_215, 2048));
     } else {
@@ -188,7 +204,7 @@ pub fn run(run: &Run) {
             let big = fam == "many-nulls" || fam == "array-of-many-nulls";
             let mem: u64 = if big { 12 << 30 } else { 4 << 30 };
             let r = run_case(&["amf0".to_string(), fam.clone(), d.to_string(), st.to_string()], if thorough { 120.0 } else { 30.0 }, mem);
-            let replay = json!({"family": fam, "depth_or_count": d, "stack_kib": st, "input_bytes_head": crate::util::hex(&build_input(fam, (*d).min(6)))});
+            let replay = json!({"family": fam, "depth_or_count": d, "stack_kib": st, "input_bytes_head": crate::util::hex(&build_input(fam, if fam.starts_with("marker") { *d } else { (*d).min(6) }))});
             match r.exit {
                 Exit::Code(0) => match result_json(&r) {
                     None => run.violation(&format!("C14/abnormal-exit/{}", fam), &format!("child printed no result ({})", r.stderr_tail), replay),
@@ -214,7 +230,7 @@ pub fn run(run: &Run) {
                 },
                 Exit::Signal(s) => {
                     let what = if s == 11 || s == 6 || s == 7 { "stack-overflow-or-abort" } else { "killed" };
-                    run.violation(&format!("C14/{}/{}", what, fam), &format!("decoding {} at depth/count {} ({} input bytes) on a {} KiB stack terminated the process with signal {} ({})", fam, d, build_input(fam, 1).len() * d, st, s, r.stderr_tail.replace('\n', " ")), replay)
+                    run.violation(&format!("C14/{}/{}", what, fam), &format!("decoding {} at depth/count {} ({} input bytes) on a {} KiB stack terminated the process with signal {} ({})", fam, d, build_input(fam, *d).len(), st, s, r.stderr_tail.replace('\n', " ")), replay)
                 }
                 Exit::TimedOut => run.violation(&format!("C14/timeout/{}", fam), &format!("decoding did not finish within the wall cap at depth/count {}", d), replay),
                 Exit::Code(c) => run.violation(&format!("C14/abnormal-exit/{}", fam), &format!("exit code {} at depth/count {}: {}", c, d, r.stderr_tail.replace('\n', " ")), replay),
